@@ -46,6 +46,9 @@ CLAIMS["C13"] = dict(cat="other", tech="dominance / must-pass-through rules on t
 CLAIMS["C15"] = dict(cat="other", tech="table agreement between writer and reader (MIR switch/constant structure), comparison-strictness agreement, edge-cut dominance for the reader's tick guard, MIR panic-site discharge",
    text="Chunk header tables agree between ChunkHeader::write and ::read (type codes inverse, size-encoding thresholds never trigger the reader's over-long warnings, inline sizes cannot collide with escape codes, tick flags disjoint from the inline mask, max_tick_delta equals the mask); DemoWriter::write_snap refuses exactly the ticks TickMarker::new's assert rejects (<= vs >) under the checked identification last_tick = prev_tick = last written tick; the reader accepts an absolute tick only above the previous one and adds inline deltas with checked_add; reachable panic sites of reader and writer are discharged or reviewed.",
    note=TB + "The round trip of chunk sequences and of typed object sets is value-level and not decided. Writer-side payloads above the 64 KiB format maximum panic instead of returning an error (outside the quantifier; recorded in DESIGN).")
+CLAIMS["C16"] = dict(cat="other", tech="MIR panic-site discharge with type-instantiated preconditions; validation-clause presence table; validate-before-arithmetic (taint-style dominance) rule; ADT layout facts for the OnlyI32 inventory",
+   text="Totality of datafile/map open + accessors: every reachable panic site is discharged by dominating guards or tied (reviewed line) to a named validation clause; the clauses Reader::check / HeaderRest::check must contain are verified present (ranges, contiguity, bounds, non-negativity, divisibility by 4) and Reader::new returns Ok only after check(); inside check no checked arithmetic touches a file-table value before a comparison has looked at it; every `unsafe impl OnlyI32` is for a repr(C) struct of i32 words.",
+   note=TB + "'Returns exactly what was stored' is value-level and not decided. zlib's FFI boundary is trusted to respect the destination length.")
 NA = {}
 m = {"version": 1,
      "setup_cmd": "cd /verif/engine/mirfacts && CARGO_NET_OFFLINE=true cargo build --release --offline",
